@@ -15,6 +15,8 @@ def sym_str(c):
 
 
 def lit(c, in_class=False):
+    if c == 12:
+        return "\\xFF"          # the invalid byte: only writable as an escape (and only accepted in byte mode, (?-u:...))
     s = sym_str(c)
     if s in META or (in_class and s in "^-]\\"):
         return "\\" + s
